@@ -632,6 +632,7 @@ var jsonAlpha = []string{"{", "}", "[", "]", ":", ",", "\"c\"", "\"a:c\"", "\"i8
 var xmlAlpha = []string{"<data>", "</data>", "<c xmlns=\"urn:a\">", "<c>", "</c>", "<i8>", "</i8>", "<ls>", "</ls>", "<li>", "</li>", "<k>", "</k>", "1", "x", "&amp;", "<", "<nosuch>", "</nosuch>", "<e/>"}
 
 func run(c *engine.Ctx) {
+	runSettingsHistories(c)
 	ms, msg := getModel()
 	if ms == nil {
 		c.Report(engine.Violation{Key: "schema-does-not-compile", Detail: msg})
@@ -1043,6 +1044,9 @@ func runGenerated(c *engine.Ctx) {
 }
 
 func replay(c *engine.Ctx, sub string, raw json.RawMessage) []engine.Violation {
+	if sub == "settings" {
+		return replaySettings(raw)
+	}
 	if sub == "generated" {
 		var r genRec
 		if json.Unmarshal(raw, &r) != nil || r.Tree == nil {
